@@ -41,7 +41,7 @@ ASSUMPTIONS = ["ChaCha20-Poly1305 in ipv8_rust_tunnels is trusted (the oracle pe
 REACH = ["delivered_forward", "delivered_backward", "layer_checked_forward", "layer_checked_backward", "hops:1", "hops:2",
          "hops:3", "fault:flip", "fault:cid", "fault:splice", "fault:inject", "fault:flag", "fault:plain_data", "tampered_dropped",
          "speedtest_ok", "e2e_linked", "e2e_delivered", "e2e_reader_checked", "sent_from_ready_callback", "plain_reader_checked",
-         "e2e_ipv8_shaped_payload", "fault:reflect", "outside_answer_during_removal_grace_period", "nested_data_message_from_outside", "fault:rp_inject_at_link"]
+         "e2e_ipv8_shaped_payload", "fault:reflect", "outside_answer_during_removal_grace_period", "nested_data_message_from_outside", "fault:rp_inject_at_link", "destination_by_host_name"]
 
 SIZES = [2, 3, 10, 22, 23, 24, 64, 100, 279, 500, 1000, 1399, 1400]
 
@@ -57,6 +57,10 @@ def cases(tier: str, base_seed: int):  # noqa: ANN201
         n += 1
         yield {"seed": base_seed + n, "hops": hops, "knobs": {"lat_jit": 0.0}, "sizes": [64, 279], "faults": [],
                "second_circuit": False, "exit_removes": True}
+    for hops in (1, 2):
+        n += 1
+        yield {"seed": base_seed + n, "hops": hops, "knobs": {"lat_jit": 0.0}, "sizes": [64, 279, 80, 500, 64, 100], "faults": [],
+               "second_circuit": False, "by_name": True}
     # sweeps: every byte position of one cell of each kind on each link
     for hops in ((2,) if tier == "quick" else (1, 2, 3)):
         for cell in range(0, 10 if tier == "quick" else 40, 1):
@@ -104,7 +108,8 @@ def cases(tier: str, base_seed: int):  # noqa: ANN201
                                "cell": rng.randrange(0, 60), "pos": rng.random(), "mask": 1 << rng.randrange(8),
                                "mode": rng.choice(["alter", "extra"])})
         yield {"seed": seed, "hops": hops, "knobs": knobs, "sizes": sizes, "faults": faults,
-               "second_circuit": mode == "tamper" or rng.random() < 0.3, "exit_removes": rng.random() < 0.25}
+               "second_circuit": mode == "tamper" or rng.random() < 0.3, "exit_removes": rng.random() < 0.25,
+               "by_name": rng.random() < 0.25}
 
 
 def readers(tw, pkt, marker: bytes, max_depth: int = 4) -> bool:  # noqa: ANN001
@@ -506,10 +511,18 @@ def execute(case: dict) -> dict:  # noqa: C901, PLR0915
 
     res: dict = {"circ": None, "circ2": None}
 
+    sent_times: dict = {}
+
     async def main() -> None:  # noqa: C901, PLR0912
-        from ipv8.messaging.interfaces.udp.endpoint import UDPv4Address
+        from ipv8.messaging.interfaces.udp.endpoint import DomainAddress, UDPv4Address
         await tw.build()
         w = tw.add_outside("w0", "9.9.9.9", 7000)
+        # the destination may be given by host name: the exit resolves it (simulated name service, seeded latency) per packet, so
+        # several packets for one name are in flight inside the exit at once
+        world.dns["w0.example"] = "9.9.9.9"
+        w_dest = DomainAddress("w0.example", 7000) if case.get("by_name") else UDPv4Address(*w.address)
+        if case.get("by_name"):
+            world.probe("destination_by_host_name")
         w2 = tw.add_outside("w1", "9.9.9.10", 7001)
         await tw.introduce()
         o = tw.nodes[0]
@@ -545,8 +558,9 @@ def execute(case: dict) -> dict:  # noqa: C901, PLR0915
             if not payload.endswith(b"e"):
                 payload = payload[:-1] + b"e"
             sent_fwd[payload] = marker if len(payload) >= 2 + len(marker) else None
+            sent_times[payload] = sent_times.get(payload, 0) + 1
             sent_bwd.add(w.reply(payload, None))
-            o.call(o.ov.send_data, circ.hop.address, circ.circuit_id, UDPv4Address(*w.address), ("0.0.0.0", 0), payload)
+            o.call(o.ov.send_data, circ.hop.address, circ.circuit_id, w_dest, ("0.0.0.0", 0), payload)
             if circ2 is not None and circ2.state == "READY":
                 p2 = b"d" + b"C2%06d" % mk + rng.randbytes(20) + b"e"
                 tw.nodes[1].call(tw.nodes[1].ov.send_data, circ2.hop.address, circ2.circuit_id, UDPv4Address(*w2.address),
@@ -611,6 +625,15 @@ def execute(case: dict) -> dict:  # noqa: C901, PLR0915
     exit_node = path[-1]
     # ---- (3) + (1): deliveries at the outside server
     seen_fwd = set()
+    if not lossy and not case["faults"] and not case["knobs"].get("dup"):
+        # nothing duplicates datagrams in this run: every payload went into the circuit once and may leave the exit once
+        cnt: dict = {}
+        for _t, data, _src in w.received:
+            cnt[data] = cnt.get(data, 0) + 1
+        for data, k in cnt.items():
+            if data in sent_times and k > sent_times[data]:
+                c.violate("intact_or_dropped", "payload_left_exit_more_often_than_sent",
+                          f"a {len(data)}-byte payload sent {sent_times[data]} time(s) arrived {k} times at the outside server: {data[:24]!r}")
     for _t, data, src in w.received:
         if data not in sent_fwd:
             c.violate("intact_or_dropped", "altered_data_left_exit",
